@@ -3,6 +3,7 @@
    conversion behaves identically in debug and release builds and never reaches an
    `unwrap_unchecked` on None/Err. *)
 Require Import Base Syntax Consts Pst.
+Require Import gen.PstFacts.
 Require Export PstWf.
 Open Scope string_scope.
 Open Scope list_scope.
@@ -130,8 +131,13 @@ Proof.
     exact (IH H2).
 Qed.
 
-Theorem pst_modes_agree ub t : wf_idl t = true -> pst_to_ast Debug ub t = pst_to_ast Release ub t.
-Proof. unfold wf_idl, pst_to_ast. apply nodes_modes. Qed.
+Theorem pst_modes_agree_raw ub t : wf_idl t = true -> pst_to_ast_raw Debug ub t = pst_to_ast_raw Release ub t.
+Proof. unfold wf_idl, pst_to_ast_raw. apply nodes_modes. Qed.
+
+(* ... of the tree the conversion effectively reads (with the repaired positional reads: the
+   tree without the comments inside declarations) *)
+Theorem pst_modes_agree ub t : wf_idl (canon t) = true -> pst_to_ast Debug ub t = pst_to_ast Release ub t.
+Proof. unfold pst_to_ast. apply pst_modes_agree_raw. Qed.
 
 (* ---- the debug build never reports UB (it panics instead) ---- *)
 Definition not_ub {A} (o : outcome A) : Prop := forall s, o <> UB s.
@@ -197,5 +203,11 @@ Proof. unfold struct_of. nub. Qed.
 Lemma nodes_debug ub ts : not_ub (nodes_of Debug ub ts).
 Proof. induction ts as [|t ts IH]; cbn [nodes_of]; nub. Qed.
 
-Theorem pst_release_no_ub ub t : wf_idl t = true -> not_ub (pst_to_ast Release ub t).
-Proof. intro H. rewrite <- (pst_modes_agree ub t H). apply nodes_debug. Qed.
+Theorem pst_release_no_ub ub t : wf_idl (canon t) = true -> not_ub (pst_to_ast Release ub t).
+Proof. intro H. rewrite <- (pst_modes_agree ub t H). unfold pst_to_ast, pst_to_ast_raw. apply nodes_debug. Qed.
+
+(* with the repaired positional reads comments inside declarations are invisible: two trees
+   that differ only there convert to the same result, in either mode *)
+Theorem comments_inside_declarations_invisible md ub t1 t2 :
+  pst_skips_comments = true -> strip_idl t1 = strip_idl t2 -> pst_to_ast md ub t1 = pst_to_ast md ub t2.
+Proof. intros H E. unfold pst_to_ast, canon. rewrite H, E. reflexivity. Qed.
